@@ -59,7 +59,7 @@ ASSUMPTIONS = [
     'and a Decimal next to a float NaN in one Range pair (ordering them raises decimal.InvalidOperation), tz-aware datetimes, numpy scalars, callables that refuse attribute assignment '
     '(Dynamic documents that requirement)',
     'declarations: hard bounds are bool/int/float (Number family) or date/datetime; softbounds, Number/Date step, set_hook, '
-    'compute_default_fn, NaN among Selector objects, dict-declared Selector objects other than hashable ones with string names, List(class_=...) alias are not exercised',
+    'compute_default_fn, NaN among Selector objects, dict-declared Selector objects other than hashable ones with string names are not exercised',
     'colour strings are ASCII (str.lower is modelled on ASCII)',
     'inclusive_bounds are booleans (Number tests `is True`, so a truthy non-bool would be exclusive: not exercised)',
     'mutation of constraint slots after the declaration is exercised for Selector.objects only (not p.bounds = ..., p.item_type = ...)',
@@ -299,6 +299,16 @@ def _hooked(case):
     return bool(h) and h['hook'] != 'ident' and case['ptype'] in HOOK_TYPES
 
 
+def _class_ids(t, env):
+    """class or tuple of classes -> list of ids (None stays None)"""
+    if t is None:
+        return None
+    out = []
+    for c in (t if isinstance(t, tuple) else (t,)):
+        out.append(BUILTIN_ID[c] if c in BUILTIN_ID else env.rev[id(c)]['c'])
+    return out
+
+
 def _kwargs(ptype, args, env):
     kw = {}
     for k, w in args.items():
@@ -423,7 +433,8 @@ def run_impl(case):
                  'bounds': ([p1.bounds[0] is not None, p1.bounds[1] is not None]
                             if ptype in HAS_BOUNDS and p1.bounds is not None else None),
                  'check_on_set': bool(p1.check_on_set) if ptype in ('Selector', 'ListSelector') else None,
-                 'constant': bool(p1.constant), 'readonly': bool(p1.readonly)}
+                 'constant': bool(p1.constant), 'readonly': bool(p1.readonly),
+                 'item_type': _class_ids(p1.item_type, env) if ptype in ('List', 'HookList') else None}
         C1 = type('C1', (param.Parameterized,), {'p': p1})
         C2 = type('C2', (param.Parameterized,), {'p': p2})
         if case.get('obj_ops'):
@@ -758,6 +769,11 @@ def list_cases():
                 elif k % 5 == 0:
                     args.update(A(default=None))
                 yield mk('List', args, pool)
+    # the deprecated alias `class_` of item_type, alone and together with item_type
+    for kw in (A(class_=[1]), A(class_=[1], item_type=[4]), A(class_=[1], item_type=None), A(item_type=None), A(class_=[100]),
+               A(class_=[1, 4], bounds=[0, 2]), A(class_=[100], is_instance=False), A(class_=[4], default=E(['a'])),
+               A(class_=[4], default=E([1]))):
+        yield mk('List', kw, pool)
     hpool = [E(v) for v in [None, [], [F1], [F1, F2], [F1, GEN, UA], [F1, 1], [1], ['f'], [OA], [None], (F1,), F1, 5, 'f', {}, [F1, F2, F1]]]
     for kw in ({}, A(allow_None=True), A(default=None), A(default=E([F2])), A(default=E([1])), A(bounds=[1, 2], default=E([F2])),
                A(bounds=[None, 1]), A(bounds=[2, None], default=E([F1, F2]), allow_None=True), A(bounds=None)):
